@@ -515,3 +515,21 @@ def r15_iter_wrappers(text, log):
         log.append(dict(rule='R15', before=norm_ws(mm.group(0)), after=new))
         return new
     return _R15.sub(repl, text)
+
+
+_R18 = re.compile(r'\bfor\s+\(\s*([a-z_][a-z0-9_]*)\s*,\s*([a-z_][a-z0-9_]*)\s*\)\s+in\s+((?:\*?[A-Za-z_][A-Za-z0-9_]*)(?:\.[A-Za-z_][A-Za-z0-9_]*)*)\.iter\(\)\.enumerate\(\)\s*\{')
+
+
+def r18_enumerate(text, log):
+    """R18: `for (I, X) in V.iter().enumerate() { B }` over a Vec or slice V (a plain path) -> `for I in 0..V.len() { let X = &V[I]; B }`:
+    the same elements with the same indices in the same order (Verus has no model of the Enumerate adapter)."""
+    mask = code_mask(text)
+
+    def repl(mm):
+        if mask[mm.start()] != CODE:
+            return mm.group(0)
+        i, x, v = mm.group(1), mm.group(2), mm.group(3)
+        new = 'for %s in 0..%s.len() { let %s = &%s[%s];' % (i, v, x, v, i)
+        log.append(dict(rule='R18', before=norm_ws(mm.group(0)), after=new))
+        return new
+    return _R18.sub(repl, text)
